@@ -349,7 +349,43 @@ def bomb_docs():
         s = ''.join('<marker id="k%d" overflow="visible">%s</marker>' % (i, '<path d="M0 0 L1 0 L1 1" marker-start="url(#k%d)" marker-mid="url(#k%d)" marker-end="url(#k%d)"/>' % (i - 1, i - 1, i - 1) if i else '<rect width="1" height="1"/>')
                     for i in range(k + 1))
         out.append(("marker fan-out 3^%d" % k, '<svg %s width="10" height="10">%s<path d="M0 0 L5 0 L5 5" stroke="black" marker-mid="url(#k%d)"/></svg>' % (NS, s, k)))
+    # marker products: every vertex of a path makes an instance, every instance copies the whole content of the marker:
+    # content x vertices (one level) and content x vertices x vertices (a marker on a path inside a marker)
+    for ncont, nv1, nv0 in ((20, 0, 300), (1500, 0, 4000), (10, 300, 300), (100, 300, 300), (1000, 100, 100), (3, 1000, 1000)):
+        out.append(("marker product %d x %d x %d" % (ncont, nv1, nv0), marker_product_doc(ncont, nv1, nv0)))
+    # one definition per element: every user of an objectBoundingBox clip path / mask / pattern / filter and every marker
+    # instance gets a definition of its own, which the tree then lists once each (Tree::clip_paths() ..): nr users in a group
+    # that is used nu times (within the node limit of the svgtree)
+    for kind, defs, attr in (('clipPath', '<clipPath id="c" clipPathUnits="objectBoundingBox"><rect width="1" height="1"/></clipPath>', 'clip-path="url(#c)"'),
+                             ('mask', '<mask id="c" maskContentUnits="objectBoundingBox"><rect width="1" height="1" fill="white"/></mask>', 'mask="url(#c)"'),
+                             ('pattern', '<pattern id="c" width="1" height="1" patternContentUnits="objectBoundingBox"><rect width="1" height="1"/></pattern>', 'fill="url(#c)"'),
+                             ('filter', '<filter id="c"><feFlood flood-color="green"/></filter>', 'filter="url(#c)"'),
+                             ('marker', '<marker id="c"><circle r="1"/></marker>', None)):
+        for nr, nu in ((300, 100), (300, 1000)):
+            if attr is None:
+                body = '<path d="M0 0%s" stroke="black" marker-mid="url(#c)"/>' % ''.join(' L%d 1' % (i % 90) for i in range(nr))
+            else:
+                body = ('<rect width="5" height="5" %s/>' % attr) * nr
+            out.append(("unique defs %s %d x %d" % (kind, nr, nu), '<svg %s width="10" height="10"><defs>%s<g id="a">%s</g></defs>%s</svg>'
+                        % (NS, defs, body, '<use xlink:href="#a"/>' * nu)))
+    # text under use expansion (known class text-use-expansion: ~150 us per text element)
+    for nt, k in ((30, 6), (30, 12)):
+        leaf = '<g id="b0">%s</g>' % ('<text>a</text>' * nt)
+        s = leaf + ''.join('<g id="b%d">%s</g>' % (i, ('<use xlink:href="#b%d"/>' % (i - 1)) * 2) for i in range(1, k + 1))
+        out.append(("text use bomb %d x 2^%d" % (nt, k), '<svg %s width="10" height="10"><defs>%s</defs><use xlink:href="#b%d"/></svg>' % (NS, s, k)))
     return out
+
+
+def marker_product_doc(ncont, nv1, nv0):
+    """marker m0 with ncont elements; nv1 > 0: marker m1 holds a path with nv1 vertices that carries m0 on every vertex; the
+    visible path has nv0 vertices and carries m1 (or m0 when nv1 = 0) on every vertex"""
+    def d(n):
+        return 'M0 0' + ''.join(' L%d 1' % (i % 90) for i in range(n))
+    s = '<marker id="m0">%s</marker>' % ('<circle r="1"/>' * ncont)
+    if nv1:
+        s += '<marker id="m1"><path d="%s" marker-mid="url(#m0)"/></marker>' % d(nv1)
+    return ('<svg %s width="100" height="100"><defs>%s</defs><path d="%s" stroke="black" marker-mid="url(#m%d)"/></svg>'
+            % (NS, s, d(nv0), 1 if nv1 else 0))
 
 
 def entity_docs():
